@@ -203,11 +203,11 @@ func (o c11Op) String() string {
 
 func c11Queries() [][]*gripql.GraphStatement {
 	return [][]*gripql.GraphStatement{
-		gripql.V().Statements,                      // 1 step: never found by search
-		gripql.V().Out().Statements,                // 2 steps
-		gripql.V().Out().HasLabel("P").Statements,  // extends q1
-		gripql.V().In().Statements,                 // 2 steps, diverges at step 2
-		gripql.V().Out().HasLabel("Q").Statements,  // same length as q2, differs in the last step
+		gripql.V().Statements,                     // 1 step: never found by search
+		gripql.V().Out().Statements,               // 2 steps
+		gripql.V().Out().HasLabel("P").Statements, // extends q1
+		gripql.V().In().Statements,                // 2 steps, diverges at step 2
+		gripql.V().Out().HasLabel("Q").Statements, // same length as q2, differs in the last step
 	}
 }
 
